@@ -506,7 +506,9 @@ class Sample:
                 )
 
                 phased = valn.phase()
-                if len(phased.ref) - len(phased.alt) != len(v.ref) - len(v.alt):
+                if len(phased.ref) != len(phased.alt) and len(phased.ref) - len(
+                    phased.alt
+                ) != len(v.ref) - len(v.alt):
                     continue  # HACK: this indicates a subsumed indel
 
                 self._indel_sites[pos, op] = list(valn.count_alleles())
